@@ -164,7 +164,11 @@ function genOpExpr (rng, ctx, d, label, nested) {
       for (let i = 0; i < n; i++) args.push(operand())
       return { t: 'call', id, label, m: 'concat', recv, args, recvShape: rng.pick(['plain', 'paren']), form: rng.pick(['method', 'method', 'method', 'proto-call', 'proto-apply', 'spread']) }
     }
-    default: return { t: 'optcall', id, label, site: P.nextSite++, m: rng.pick(['trim', 'trimEnd']) }
+    default:
+      // an optional chain whose argument is a closure (called back at once) that holds an optional
+      // chain with a configured method: the inner chain belongs to the closure's activation
+      if (rng.chance(1, 3)) return { t: 'optclosure', id, label, site: P.nextSite++, m: rng.pick(['trim', 'trimEnd']), shape: rng.below(5) }
+      return { t: 'optcall', id, label, site: P.nextSite++, m: rng.pick(['trim', 'trimEnd']) }
   }
 }
 
@@ -195,7 +199,7 @@ function render (P) {
   function altsOf (e) {
     switch (e.t) {
       case 'probe': case 'yield': case 'await': case 'fnarg': return [[e.site]]
-      case 'optcall': return [[e.site]]
+      case 'optcall': case 'optclosure': return [[e.site]]
       case 'optfn': return [[e.arg.site]]
       case 'alone': return cat(e.args.map(altsOf))
       case 'cond': return altsOf(e.cons).concat(altsOf(e.alt))
@@ -270,6 +274,17 @@ function render (P) {
       case 'optcall': {
         reg(e, 'trim', [e.site], e.label)
         return `$.o(${A}, ${e.site})?.${e.m}()`
+      }
+      case 'optclosure': {
+        reg(e, 'trim', [e.site], e.label)
+        const inner = `$.o(${A}, ${e.site})?.${e.m}()`
+        switch (e.shape) {
+          case 0: return `$.n([1])?.map((x2) => ${inner})`
+          case 1: return `$.n([1])?.map(function (x2) { return ${inner}; })`
+          case 2: return `$.n({ f: (g) => g() })?.f(() => ${inner})`
+          case 3: return `$.n([$.o(${A}, ${e.site})])?.map((x2) => x2?.${e.m}())`
+          default: return `$.n({ f: (g) => g() })?.f?.(function () { return [${inner}]; })`
+        }
       }
     }
     return "''"
